@@ -403,9 +403,9 @@ func marshalVia(v interface{}, via int) ([]byte, error) {
 	var pick func(*jnode) *jnode
 	switch via {
 	case 0:
-		return json.Marshal(v)
+		return safeMarshal(v)
 	case 1:
-		return json.Marshal(rv.Interface())
+		return safeMarshal(rv.Interface())
 	case 2:
 		wrapped, pick = []interface{}{rv.Interface()}, func(t *jnode) *jnode { return t.arr[0] }
 	case 3:
@@ -417,7 +417,7 @@ func marshalVia(v interface{}, via int) ([]byte, error) {
 	default:
 		wrapped, pick = struct{ X interface{} }{rv.Interface()}, func(t *jnode) *jnode { return t.get("X") }
 	}
-	b, err := json.Marshal(wrapped)
+	b, err := safeMarshal(wrapped)
 	if err != nil {
 		return nil, err
 	}
@@ -434,17 +434,17 @@ func unmarshalVia(text []byte, t reflect.Type, via int) (interface{}, error) {
 	fresh := reflect.New(t)
 	switch via {
 	case 0:
-		return fresh.Interface(), json.Unmarshal(text, fresh.Interface())
+		return fresh.Interface(), safeUnmarshal(text, fresh.Interface())
 	case 1:
 		sl := reflect.New(reflect.SliceOf(t))
-		err := json.Unmarshal([]byte("["+string(text)+"]"), sl.Interface())
+		err := safeUnmarshal([]byte("["+string(text)+"]"), sl.Interface())
 		if err == nil && sl.Elem().Len() == 1 {
 			fresh.Elem().Set(sl.Elem().Index(0))
 		}
 		return fresh.Interface(), err
 	case 2:
 		m := reflect.New(reflect.MapOf(reflect.TypeOf(""), t))
-		err := json.Unmarshal([]byte(`{"k":`+string(text)+"}"), m.Interface())
+		err := safeUnmarshal([]byte(`{"k":`+string(text)+"}"), m.Interface())
 		if err == nil {
 			if e := m.Elem().MapIndex(reflect.ValueOf("k")); e.IsValid() {
 				fresh.Elem().Set(e)
@@ -453,7 +453,7 @@ func unmarshalVia(text []byte, t reflect.Type, via int) (interface{}, error) {
 		return fresh.Interface(), err
 	}
 	st := reflect.New(reflect.StructOf([]reflect.StructField{{Name: "X", Type: t, Tag: `json:"x"`}}))
-	err := json.Unmarshal([]byte(`{"x":`+string(text)+"}"), st.Interface())
+	err := safeUnmarshal([]byte(`{"x":`+string(text)+"}"), st.Interface())
 	if err == nil {
 		fresh.Elem().Set(st.Elem().Field(0))
 	}
@@ -489,7 +489,7 @@ func decodeDoc(cfg int, text []byte) *obs {
 	o := &obs{text: text}
 	fresh := &osm.OSM{}
 	data := append([]byte(nil), text...)
-	o.uerr = json.Unmarshal(data, fresh)
+	o.uerr = safeUnmarshal(data, fresh)
 	o.u = counting.unmarshals
 	o.decoded = fresh
 	if o.uerr == nil {
@@ -772,10 +772,10 @@ func main() {
 			c := &wire.Case{Class: "go-only-changeset-change/" + configs[cfg]}
 			c.Int(5)
 			install(cfg)
-			b1, err1 := json.Marshal(o)
+			b1, err1 := safeMarshal(o)
 			back := &osm.OSM{}
-			err2 := json.Unmarshal(b1, back)
-			b2, err3 := json.Marshal(back)
+			err2 := safeUnmarshal(b1, back)
+			b2, err3 := safeMarshal(back)
 			install(0)
 			switch {
 			case err1 != nil || err2 != nil || err3 != nil:
@@ -833,7 +833,7 @@ func main() {
 		dg := &docGen{rng: rng, p: []float64{0.2, 0.5, 0.8, 1}[i%4]}
 		doc, exp := dg.document()
 		var b bytes.Buffer
-		writeTree(&b, doc, rng.Intn)
+		writeDocument(&b, doc, rng.Intn)
 		back, err := readTree(b.Bytes())
 		if err != nil || !treeEqual(back, doc) {
 			panic(fmt.Sprintf("c05 harness: document writer and independent reader disagree (%v):\n%s", err, b.String()))
@@ -914,7 +914,7 @@ func directMarshal(cfg int, g *gen) (string, interface{}) {
 			return msg, map[string]interface{}{"codec": configs[cfg]}
 		}
 		// something else is marshalled in between
-		if _, err := json.Marshal(g.osm()); err != nil {
+		if _, err := safeMarshal(g.osm()); err != nil {
 			return "marshal failed: " + err.Error(), map[string]interface{}{"codec": configs[cfg]}
 		}
 	}
@@ -928,7 +928,7 @@ func directMarshal(cfg int, g *gen) (string, interface{}) {
 		if err != nil {
 			return k.name + ".MarshalJSON: returned bytes are not JSON: " + err.Error(), desc
 		}
-		ref, err := json.Marshal(k.v)
+		ref, err := safeMarshal(k.v)
 		if err != nil {
 			return k.name + ": json.Marshal failed: " + err.Error(), desc
 		}
@@ -1048,7 +1048,7 @@ func sizeCase(cfg, n int) (string, interface{}) {
 		return ""
 	}
 	// own output
-	b, err := json.Marshal(o)
+	b, err := safeMarshal(o)
 	if err != nil {
 		return "marshal failed: " + err.Error(), desc
 	}
@@ -1060,7 +1060,7 @@ func sizeCase(cfg, n int) (string, interface{}) {
 		return fmt.Sprintf("container with %d elements: output has no elements array of that length", n), desc
 	}
 	back := &osm.OSM{}
-	if err := json.Unmarshal(b, back); err != nil {
+	if err := safeUnmarshal(b, back); err != nil {
 		return fmt.Sprintf("container with %d elements: own output does not unmarshal: %v", n, err), desc
 	}
 	if d := diff(ids(back)); d != "" {
@@ -1070,7 +1070,7 @@ func sizeCase(cfg, n int) (string, interface{}) {
 	var buf bytes.Buffer
 	writeCompact(&buf, doc)
 	fromDoc := &osm.OSM{}
-	if err := json.Unmarshal(buf.Bytes(), fromDoc); err != nil {
+	if err := safeUnmarshal(buf.Bytes(), fromDoc); err != nil {
 		return fmt.Sprintf("document with %d elements rejected: %v", n, err), desc
 	}
 	if d := diff(ids(fromDoc)); d != "" {
@@ -1150,11 +1150,11 @@ func bigCase(cfg, n int) *wire.Case {
 	var buf bytes.Buffer
 	writeCompact(&buf, doc)
 	fromDoc := &osm.OSM{}
-	derr := json.Unmarshal(buf.Bytes(), fromDoc)
+	derr := safeUnmarshal(buf.Bytes(), fromDoc)
 	c.Bool(derr != nil).Ints(osmSummary(fromDoc))
 	desc["document_decoded"] = map[string]interface{}{"error": errText(derr), "summary": osmSummary(fromDoc)}
 	// (b) the value
-	b, merr := json.Marshal(val)
+	b, merr := safeMarshal(val)
 	tsum := []int64{-1, -1}
 	back := &osm.OSM{}
 	var uerr error = errFlag{}
@@ -1181,7 +1181,7 @@ func bigCase(cfg, n int) *wire.Case {
 				tsum = []int64{int64(len(el.arr)), hashIDs(codes)}
 			}
 		}
-		uerr = json.Unmarshal(b, back)
+		uerr = safeUnmarshal(b, back)
 	}
 	c.Bool(merr != nil).Ints(tsum)
 	c.Bool(uerr != nil).Ints(osmSummary(back))
